@@ -1,10 +1,10 @@
 package chk
 
 import (
-	"os"
 	"fmt"
 	"go/token"
 	"go/types"
+	"os"
 	"sort"
 	"strings"
 
@@ -131,12 +131,12 @@ func (g *dcGraph) inconsistent() bool {
 }
 
 type prover struct {
-	p     *Program
-	t     *Termer
-	ps    *pathState
-	g     *dcGraph
-	seen  map[string]bool // terms whose intrinsic facts were added
-	notes []string
+	p           *Program
+	t           *Termer
+	ps          *pathState
+	g           *dcGraph
+	seen        map[string]bool // terms whose intrinsic facts were added
+	notes       []string
 	lits        []Lit
 	pendingNE   []ne
 	pendingImp  []imp
@@ -809,28 +809,28 @@ type pfact struct {
 // preconds: facts a function may assume about its parameters; each is an obligation at every static call site
 // unless the function is listed in assumedPre (API arguments / cross-component agreements, with the reason).
 var preconds = map[string][]pfact{
-	"db.readTwos24":                 {{kind: "len>=", param: 0, n: 3}},
-	"db.readTwos48":                 {{kind: "len>=", param: 0, n: 6}},
-	"db.newBtree":                   {{kind: "len>=", param: 0, n: 512}, {kind: "val>=", param: 2, n: 512}, {kind: "val<=", param: 2, n: 65536}},
-	"db.newLeafTableBtree":          {{kind: "val>=", param: 0, n: 0}, {kind: "val<=", param: 0, n: 65535}, {kind: "val>=", param: 3, n: 512}, {kind: "val<=", param: 3, n: 65536}},
-	"db.newInteriorTableBtree":      {{kind: "val>=", param: 0, n: 0}, {kind: "val<=", param: 0, n: 65535}},
-	"db.newLeafIndex":               {{kind: "val>=", param: 0, n: 0}, {kind: "val<=", param: 0, n: 65535}, {kind: "val>=", param: 3, n: 512}, {kind: "val<=", param: 3, n: 65536}},
-	"db.newInteriorIndex":           {{kind: "val>=", param: 0, n: 0}, {kind: "val<=", param: 0, n: 65535}, {kind: "val>=", param: 4, n: 512}, {kind: "val<=", param: 4, n: 65536}},
-	"db.parseCellpointers":          {{kind: "val>=", param: 0, n: 0}, {kind: "val<=", param: 0, n: 65535}},
-	"db.parseTableLeaf":             {{kind: "val>=", param: 1, n: 512}, {kind: "val<=", param: 1, n: 65536}},
-	"db.parseIndexLeaf":             {{kind: "val>=", param: 1, n: 512}, {kind: "val<=", param: 1, n: 65536}},
-	"db.parseIndexInterior":         {{kind: "val>=", param: 1, n: 512}, {kind: "val<=", param: 1, n: 65536}},
-	"db.parsePayload":               {{kind: "val>=", param: 2, n: 512}, {kind: "val<=", param: 2, n: 65536}},
-	"db.calculateCellInPageBytes":   {{kind: "val>=", param: 1, n: 512}, {kind: "val<=", param: 1, n: 65536}},
-	"(*db.filePager).page":          {{kind: "val>=", param: 2, n: 0}, {kind: "val<=", param: 2, n: 65536}},
-	"(*db.bytePager).page":          {{kind: "val>=", param: 2, n: 0}, {kind: "val<=", param: 2, n: 65536}},
-	"(sqlittle.Row).scanString":     {{kind: "val>=", param: 1, n: 0}},
-	"(sqlittle.Row).scanBytes":      {{kind: "val>=", param: 1, n: 0}},
-	"(sqlittle.Row).scanInt64":      {{kind: "val>=", param: 1, n: 0}},
-	"(sqlittle.Row).scanFloat64":    {{kind: "val>=", param: 1, n: 0}},
-	"(sqlittle.Row).scanTime":       {{kind: "val>=", param: 1, n: 0}},
-	"sql.readOp":                    {{kind: "len>=", param: 0, n: 1}},
-	"sqlittle.setKey":               {{kind: "elems>=", param: 1, n: 0}, {kind: "len>=len", param: 2, other: 1}},
+	"db.readTwos24":               {{kind: "len>=", param: 0, n: 3}},
+	"db.readTwos48":               {{kind: "len>=", param: 0, n: 6}},
+	"db.newBtree":                 {{kind: "len>=", param: 0, n: 512}, {kind: "val>=", param: 2, n: 512}, {kind: "val<=", param: 2, n: 65536}},
+	"db.newLeafTableBtree":        {{kind: "val>=", param: 0, n: 0}, {kind: "val<=", param: 0, n: 65535}, {kind: "val>=", param: 3, n: 512}, {kind: "val<=", param: 3, n: 65536}},
+	"db.newInteriorTableBtree":    {{kind: "val>=", param: 0, n: 0}, {kind: "val<=", param: 0, n: 65535}},
+	"db.newLeafIndex":             {{kind: "val>=", param: 0, n: 0}, {kind: "val<=", param: 0, n: 65535}, {kind: "val>=", param: 3, n: 512}, {kind: "val<=", param: 3, n: 65536}},
+	"db.newInteriorIndex":         {{kind: "val>=", param: 0, n: 0}, {kind: "val<=", param: 0, n: 65535}, {kind: "val>=", param: 4, n: 512}, {kind: "val<=", param: 4, n: 65536}},
+	"db.parseCellpointers":        {{kind: "val>=", param: 0, n: 0}, {kind: "val<=", param: 0, n: 65535}},
+	"db.parseTableLeaf":           {{kind: "val>=", param: 1, n: 512}, {kind: "val<=", param: 1, n: 65536}},
+	"db.parseIndexLeaf":           {{kind: "val>=", param: 1, n: 512}, {kind: "val<=", param: 1, n: 65536}},
+	"db.parseIndexInterior":       {{kind: "val>=", param: 1, n: 512}, {kind: "val<=", param: 1, n: 65536}},
+	"db.parsePayload":             {{kind: "val>=", param: 2, n: 512}, {kind: "val<=", param: 2, n: 65536}},
+	"db.calculateCellInPageBytes": {{kind: "val>=", param: 1, n: 512}, {kind: "val<=", param: 1, n: 65536}},
+	"(*db.filePager).page":        {{kind: "val>=", param: 2, n: 0}, {kind: "val<=", param: 2, n: 65536}},
+	"(*db.bytePager).page":        {{kind: "val>=", param: 2, n: 0}, {kind: "val<=", param: 2, n: 65536}},
+	"(sqlittle.Row).scanString":   {{kind: "val>=", param: 1, n: 0}},
+	"(sqlittle.Row).scanBytes":    {{kind: "val>=", param: 1, n: 0}},
+	"(sqlittle.Row).scanInt64":    {{kind: "val>=", param: 1, n: 0}},
+	"(sqlittle.Row).scanFloat64":  {{kind: "val>=", param: 1, n: 0}},
+	"(sqlittle.Row).scanTime":     {{kind: "val>=", param: 1, n: 0}},
+	"sql.readOp":                  {{kind: "len>=", param: 0, n: 1}},
+	"sqlittle.setKey":             {{kind: "elems>=", param: 1, n: 0}, {kind: "len>=len", param: 2, other: 1}},
 	// WITHOUT ROWID-only helpers: the schema argument has WithoutRowid set
 	"sqlittle.columnStoreOrder":        {{kind: "flag", param: 0, field: "WithoutRowid"}},
 	"sqlittle.pkColumns":               {{kind: "flag", param: 0, field: "WithoutRowid"}},
@@ -980,8 +980,8 @@ func (pr *prover) calleePost(term string, call *ssa.Call, idx int) {
 		// n = −1 ∨ 1 ≤ n ≤ len(b), n ≤ 9
 		arg := "len(" + pr.t.Term(call.Call.Args[0], pr.ps) + ")"
 		pr.g.addLE(zero, arg, 0)
-		pr.g.addLE(zero, term, 1)   // n ≥ −1
-		pr.g.addLE(term, zero, 9)   // n ≤ 9
+		pr.g.addLE(zero, term, 1) // n ≥ −1
+		pr.g.addLE(term, zero, 9) // n ≤ 9
 		pr.notes = append(pr.notes, "readVarint.n")
 		pr.pendingDisj = append(pr.pendingDisj, disj{term: term, ifGE: 0, thenGE: 1, alsoLE: arg})
 	case name == "(*db.Schema).Column" || name == "(*db.SchemaIndex).Column":
@@ -1009,6 +1009,12 @@ func (pr *prover) calleePost(term string, call *ssa.Call, idx int) {
 		pr.g.addLE(term, arg, 0) // −1 or 1..len: at most len either way
 		pr.g.addLE(zero, term, 1)
 		pr.pendingDisj = append(pr.pendingDisj, disj{term: term, ifGE: 0, thenGE: 1, alsoLE: arg})
+	case (name == "strings.IndexRune" || name == "strings.IndexByte" || name == "strings.LastIndexByte" || name == "strings.IndexAny" || name == "strings.IndexFunc") && idx == 0:
+		// library contract: −1, or the byte index of a match inside s: 0 ≤ n < len(s)
+		arg, _, _ := pr.lenTermOf(call.Call.Args[0])
+		pr.g.addLE(zero, arg, 0)
+		pr.g.addLE(zero, term, 1)
+		pr.pendingDisj = append(pr.pendingDisj, disj{term: term, ifGE: 0, thenGE: 0, alsoLT: arg})
 	case name == "unicode/utf8.DecodeRuneInString" && idx == 1:
 		// 0 ≤ size ≤ len(s), size ≥ 1 when len(s) ≥ 1
 		arg := "len(" + pr.t.Term(call.Call.Args[0], pr.ps) + ")"
@@ -1120,9 +1126,9 @@ type sliceLenFact struct {
 } // t = baseLen − (lo.base + lo.off)
 
 type mulFact struct {
-	t    string
-	x    lin
-	c    int64
+	t string
+	x lin
+	c int64
 }
 
 type ne struct {
@@ -1132,8 +1138,8 @@ type ne struct {
 
 type disj struct {
 	term   string
-	ifGE   int64 // when term ≥ ifGE is entailed …
-	thenGE int64 // … then term ≥ thenGE
+	ifGE   int64  // when term ≥ ifGE is entailed …
+	thenGE int64  // … then term ≥ thenGE
 	alsoLE string // … and term ≤ alsoLE
 	alsoLT string // … and term < alsoLT
 }
@@ -1498,10 +1504,10 @@ func (pr *prover) proveRange(idx lin, lenTerm string, strict bool) bool {
 // ---- sites ------------------------------------------------------------------------------------
 
 type panicSite struct {
-	Fn    *ssa.Function
-	In    ssa.Instruction
-	Kind  string
-	Key   string
+	Fn   *ssa.Function
+	In   ssa.Instruction
+	Kind string
+	Key  string
 }
 
 func trustedGenerated(p *Program, fn *ssa.Function) bool {
@@ -1650,19 +1656,19 @@ func (pr *prover) counterField(fv *types.Var) bool {
 }
 
 var panicSuppress = map[string]string{
-	"(*driver.Rows).Next index#2":          "database/sql passes len(dest) = len(Columns()), and a row has one value per requested column (DRV-7: the same column list is used for both)",
-	"db.compare panic#1":                   "type-switch default: Record elements and typed keys are in the five storage classes (REC-table, ROWMAP, KEY check every producer; db.Key is documented to hold only those)",
-	"db.compare panic#2":                   "as panic#1",
-	"db.compare panic#3":                   "as panic#1",
-	"db.compare panic#4":                   "as panic#1",
-	"db.compare panic#5":                   "as panic#1",
-	"db.compare panic#6":                   "as panic#1",
-	"(sqlittle.Row).scanString panic#1":    "type-switch default over a Row element: rows are built by toRow from record values, rowids and column defaults (ROWMAP), all in the five storage classes",
-	"(sqlittle.Row).scanBytes panic#1":     "as scanString",
-	"(sqlittle.Row).scanInt64 panic#1":     "as scanString",
-	"(sqlittle.Row).scanFloat64 panic#1":   "as scanString",
-	"(sqlittle.Row).scanTime panic#1":      "as scanString",
-	"sql.makeColumnDef panic#1":            "type-switch default over column constraints: every production of columnConstraint assigns one of the cc* types (GRAM-1 checks each production assigns its value)",
+	"(*driver.Rows).Next index#2":        "database/sql passes len(dest) = len(Columns()), and a row has one value per requested column (DRV-7: the same column list is used for both)",
+	"db.compare panic#1":                 "type-switch default: Record elements and typed keys are in the five storage classes (REC-table, ROWMAP, KEY check every producer; db.Key is documented to hold only those)",
+	"db.compare panic#2":                 "as panic#1",
+	"db.compare panic#3":                 "as panic#1",
+	"db.compare panic#4":                 "as panic#1",
+	"db.compare panic#5":                 "as panic#1",
+	"db.compare panic#6":                 "as panic#1",
+	"(sqlittle.Row).scanString panic#1":  "type-switch default over a Row element: rows are built by toRow from record values, rowids and column defaults (ROWMAP), all in the five storage classes",
+	"(sqlittle.Row).scanBytes panic#1":   "as scanString",
+	"(sqlittle.Row).scanInt64 panic#1":   "as scanString",
+	"(sqlittle.Row).scanFloat64 panic#1": "as scanString",
+	"(sqlittle.Row).scanTime panic#1":    "as scanString",
+	"sql.makeColumnDef panic#1":          "type-switch default over column constraints: every production of columnConstraint assigns one of the cc* types (GRAM-1 checks each production assigns its value)",
 }
 
 func runPanic(c *Ctx) {
